@@ -26,6 +26,7 @@ import subprocess as sp
 
 from . import hooks
 from . import config
+from . import _verif
 
 logger = logging.getLogger("bumpver.vcs")
 
@@ -98,6 +99,7 @@ class VCSAPI:
         else:
             logger.debug(cmd_str)
         cmd_parts = shlex.split(cmd_str)
+        _verif.emit("vcs.cmd", vcs=self.name, name=cmd_name, argv=cmd_parts)
         output_data: bytes = sp.check_output(cmd_parts, env=env, stderr=sp.PIPE)
 
         return output_data.decode("utf-8")
@@ -248,6 +250,7 @@ def get_vcs_api() -> VCSAPI:
 
 def assert_not_dirty(vcs_api: VCSAPI, filepaths: typ.Set[str], allow_dirty: bool) -> None:
     dirty_files = vcs_api.status(required_files=filepaths)
+    _verif.emit("dirty", dirty_files=dirty_files, filepaths=filepaths, allow_dirty=allow_dirty)
 
     if dirty_files:
         logger.warning(f"{vcs_api.name} working directory is not clean. Uncomitted file(s):")
